@@ -20,6 +20,7 @@ FAMILY = {
  'f12':   ('C:Apex(A, R:B(B1,B2,B3), O:Or(C:P(P1,P2), S:Q(Q1,Q2)))',  '13 states: width-3 resumable, orthogonal with composite and selectable siblings'),
  'fo8':   ('C:Apex(A, O:Or(L1,L2,L3,L4,L5,L6,L7,L8))',                '8-wide orthogonal region (bit view ends on a byte boundary)'),
  'fo3':   ('C:Apex(A, O:Or(L1, L2, C:P(P1,P2)))',                         'orthogonal region with two plain-state siblings followed by a region sibling'),
+ 'fp3':   ('C:Apex(A, B, C:D(D1,D2))',                                 'plan fixture: three sub-states of the root, one of them a region'),
  'fnu':   ('C:Apex(A, U:U(U1, C:V(V1,V2)), S:Sx(S1,S2))',             'utilitarian region with a nested region, selectable sibling'),
 }
 QUICK = ['f5', 'f10', 'fsel', 'foroot']
@@ -66,7 +67,7 @@ def fsm_case(pid, fx, name, defs, timeout=600, solvers=('kissat',), checks='none
     if 'ENTRY=1' in defs or 'ENTRY=4' in defs or 'ENTRY=9' in defs: nreq = 0
     U, uws = bounds(fx, nreq, budget)
     d = ['VF_TABLES="%s"' % fx['tables']] + list(defs)
-    if 'LOG_INTERFACE' in fx['opts'].get('features', []) or 'ALL' in fx['opts'].get('features', []): d.append('HAVE_LOGGER')
+    if any(f in fx['opts'].get('features', []) for f in ('LOG_INTERFACE', 'VERBOSE_DEBUG_LOG')): d.append('HAVE_LOGGER')
     m = dict(fixture_term=fx['term'], fixture_note=FAMILY[fx['fam']][1], config={k: v for k, v in fx['opts'].items() if k != 'prefix'})
     m.update(meta or {})
     return Case('%s.%s.%s' % (pid.lower(), fx['name'], name), fx, HARNESS, d, unwind=U, unwindset=list(unwind_extra) + uws, checks=checks,
